@@ -55,6 +55,10 @@ func c19Events(w *SWorld) []Ev {
 		case o.Kind == "head" && o.Trusted != nil:
 			evs = append(evs, Ev{K: "answer", A: "tip"}, Ev{K: "answer", A: "same"}, Ev{K: "answer", A: "error"},
 				Ev{K: "answer", A: "soft", D: w.Cfg.N}, Ev{K: "advance", D: 3})
+			if w.Cfg.NetHead != 0 {
+				// peers lagging behind gossip: one above the head the request was verified against, and the real tip
+				evs = append(evs, Ev{K: "answer", A: "height", D: int(o.Trusted.Ht) + 1}, Ev{K: "answer", A: "height", D: w.Cfg.N})
+			}
 		case o.Kind == "head":
 			evs = append(evs, Ev{K: "answer", A: "tip"}, Ev{K: "answer", A: "height", D: 1}, Ev{K: "answer", A: "error"})
 		case o.Kind == "range":
@@ -259,6 +263,8 @@ func TestC19(t *testing.T) {
 		{N: 10, S: 3, Batch: 1, Hold: true, HeadAgeS: 7200, FreshAfterS: true}, // expired head at start, peers are fresh
 		{N: 10, S: 3, Batch: 1, Hold: true, HeadAgeS: 7200},                    // expired head, peers stuck on expired heads too
 		{N: 10, S: 0, Batch: 1, Hold: true},                                    // empty store
+		// stale head, and the trusted peers are not ahead at start: gossip then runs ahead of the peers
+		{N: 8, S: 3, NetHead: 3, Batch: 1, Hold: true, HeadAgeS: 100, FreshAfterS: true},
 	}
 	states, trans := 0, 0
 	for _, cfg := range cfgs {
